@@ -258,20 +258,33 @@ static void store(Type *ty) {
     println("  mov %%rax, (%%rdi)");
 }
 
+// A floating-point compare sets ZF not only if the operands are equal
+// but also if they are unordered. NaN is not equal to zero, so fold the
+// parity flag into ZF: after this, ZF is set iff the value is zero.
+static void cmp_zero_nan(void) {
+  println("  sete %%al");
+  println("  setnp %%dl");
+  println("  and %%dl, %%al");
+  println("  cmp $1, %%al");
+}
+
 static void cmp_zero(Type *ty) {
   switch (ty->kind) {
   case TY_FLOAT:
     println("  xorps %%xmm1, %%xmm1");
     println("  ucomiss %%xmm1, %%xmm0");
+    cmp_zero_nan();
     return;
   case TY_DOUBLE:
     println("  xorpd %%xmm1, %%xmm1");
     println("  ucomisd %%xmm1, %%xmm0");
+    cmp_zero_nan();
     return;
   case TY_LDOUBLE:
     println("  fldz");
     println("  fucomip");
     println("  fstp %%st(0)");
+    cmp_zero_nan();
     return;
   }
 
